@@ -61,7 +61,9 @@ MulDiv(a, b, c) == MulDivQR(a, b, c).q
 \* the guessed probe: begin + (target-begintime)*(end-begin)/(endtime-begintime) - CHUNK, not before begin+CHUNK (else begin)
 Guess(begin, end, begintime, endtime, target, CHUNK) ==
   IF end - begin < CHUNK THEN begin
-  ELSE LET g == begin + MulDiv(target - begintime, end - begin, endtime - begintime) - CHUNK IN IF g < begin + CHUNK THEN begin ELSE g
+  ELSE LET raw == IF endtime > begintime /\ target > begintime THEN MulDiv(target - begintime, end - begin, endtime - begintime) ELSE 0
+           lim == IF raw > end - begin THEN end - begin ELSE raw                       \* kept inside the byte range (it is anyway on a stream with consistent granule positions)
+           g == begin + lim - CHUNK IN IF g < begin + CHUNK THEN begin ELSE g
 
 \* "back up a bit": one probe step towards begin.  The pinned tree stopped at begin + 1 ("don't repeat a read we've already performed"),
 \* which skips the page AT begin although no read from begin was ever made on this path; "begin" is the repaired rule.
